@@ -777,7 +777,14 @@ def _bsearch(w, m, st, callee, args, term):
     sl, clo = args
     tab = slice_ident(m, st, sl)
     ans = w.decide(st, "bsearch", ["Ok", "Err"])
-    w.probe(m, st, clo, [_elem_of(w, m, st, clo, "elem")])
+    elem = None
+    if isinstance(tab, str):
+        # the searched slice is a table static: its own element type (the closure's parameter may be generic)
+        s_ = w.prog.statics.get(tab)
+        mm = re.match(r"^\[(.*);\s*\d+\]$", s_["ty"]) if s_ else None
+        if mm:
+            elem = Ref(("val", ty_.fresh(w.prog, mm.group(1), ("elem", w.n(st)))))
+    w.probe(m, st, clo, [elem if elem is not None else _elem_of(w, m, st, clo, "elem")])
     idx = Sym(("bsidx", w.n(st)), "usize")
     if ans == "Ok":
         st.facts[("idx-of", idx.name)] = tab if tab is not None else "?"
